@@ -448,6 +448,12 @@ func deviate(t *rapid.T, m *MClaims, c Claim, literalOnly bool) {
 			m.Nonces = &ns
 		case kind == 2 && p == P2:
 			ns := [][]byte{drawBytes(t, drawHashLen(t, "nonce.len"), "nonce"), drawBytes(t, drawHashLen(t, "nonce.len2"), "nonce2")}
+			switch rapid.IntRange(0, 3).Draw(t, "nonce.nullentry") {
+			case 0:
+				ns[1] = nil // [n, null]
+			case 1:
+				ns = [][]byte{ns[0], nil, ns[1]} // [n, null, n2]
+			}
 			m.Nonces = &ns
 		default:
 			ns := [][]byte{drawBytes(t, drawBadLen(t, "nonce.badlen", isHashLen, []int{0, 8, 31, 33, 47, 49, 63, 65}), "nonce")}
